@@ -7,7 +7,10 @@ Driver for C21. One case = one history through the real outbox storage
   wait <scope> <bucket> <key> last=<n|none> <before|after|->   it called a wait function
   flush <n> <Method> <bucket> <key> ok|err  the worker replayed entry n on the inner storage
   thru <Method>                           the caller's own call reached the inner storage
-  res …                                   the operation's result
+  res …                                   the operation's result (`res err BadDigest|ReadError` for a rejected put)
+  rolledback <n>                          the transaction that stored entry n was rolled back (follows the res line)
+  (`op put … cs=bad:<kind>` / `cs=ioerr`: the supplied checksum does not match the body / the body breaks
+   off — the outbox layer must reject the call; `cs=ok:<kind>`: a matching checksum)
   jam                                     a replay failed; the case is abandoned
   dump                                    table drained; the following op/res pairs read the inner storage directly
   unexpected <text>
@@ -20,7 +23,9 @@ JUDGE: the property itself — the sequential S3 model (`S3.step Quirks.code`, t
 semantics) runs the accepted operations in acceptance order; every read issued through the outbox
 must answer what the sequential run answers at that point (`C21.read-your-writes`), and after the
 drain every read of the inner storage must answer what the sequential run answers at its end
-(`C21.drained-state-differs`).
+(`C21.drained-state-differs`). Accepted = answered without error: an operation on the queue path
+that is answered with an error must have left no outbox entry (`C21.rejected-op-left-outbox-entry`)
+and is not part of the sequential run.
 -/
 import Pithos.Util.Proto
 import Pithos.Util.S3Driver
@@ -48,13 +53,14 @@ def isErr : S3.Out → Bool
 
 structure Cur where
   op : S3.Op
+  bad : Bool := false          -- the outbox layer must reject it (mismatching checksum, broken body)
   line : String
   queued : Nat := 0
   waits : List String := []
   thru : Option S3.Out := none   -- model result computed when the caller reached the inner storage
 
 def judgeCase (_k : Nat) (lines : List String) : Verdict := Id.run do
-  let mut s : St S3.State S3.Op := { inner := {}, queue := [] }
+  let mut s : St S3.State COp := { inner := {}, queue := [] }
   let mut ctx : Ctx := {}
   let mut seq : S3.State := {}
   let mut jctx : Ctx := {}
@@ -73,6 +79,8 @@ def judgeCase (_k : Nat) (lines : List String) : Verdict := Id.run do
   let mut nFlush := 0
   let mut nDump := 0
   let mut nSeqErrAck := 0
+  let mut nChecked := 0
+  let mut nRejected := 0
   let mut opNames : List String := []
   for l in lines do
     if jammed then
@@ -83,7 +91,10 @@ def judgeCase (_k : Nat) (lines : List String) : Verdict := Id.run do
     | "op" :: _ =>
       match parseOp ctx l with
       | none => div := div ++ [s!"line{idx}:unparsable:{l}"]; cur := none
-      | some op => cur := some { op := op, line := l }
+      | some op =>
+        let csTok := kvOf t "cs"
+        cur := some { op := op, bad := csTok.startsWith "bad" || csTok == "ioerr", line := l }
+        if csTok != "~" then nChecked := nChecked + 1
       nOps := nOps + 1
       opNames := opNames ++ [t.getD 1 "?"]
     | "queued" :: _ =>
@@ -99,8 +110,8 @@ def judgeCase (_k : Nat) (lines : List String) : Verdict := Id.run do
       | [] => div := div ++ [s!"line{idx}:impl-replayed-an-entry,model-table-empty"]
       | e :: _ =>
         let a := I.addr e
-        if methodOf e != method || a.1 != b || (if a.2 == "" then "~" else a.2) != k then
-          div := div ++ [s!"line{idx}:impl-replayed={method}/{b}/{k},model-head={methodOf e}/{a.1}/{a.2}"]
+        if methodOf e.op != method || a.1 != b || (if a.2 == "" then "~" else a.2) != k then
+          div := div ++ [s!"line{idx}:impl-replayed={method}/{b}/{k},model-head={methodOf e.op}/{a.1}/{a.2}"]
         let mErr := isErr (I.step s.inner e).2
         if mErr != (res == "err") then
           div := div ++ [s!"line{idx}:replay-result:impl={res},model-err={mErr}"]
@@ -111,14 +122,16 @@ def judgeCase (_k : Nat) (lines : List String) : Verdict := Id.run do
       | none => div := div ++ [s!"line{idx}:thru-without-op"]
       | some c =>
         if c.thru.isNone then
-          if P.queues s.inner c.op then
+          let cop : COp := { op := c.op, bad := c.bad }
+          if P.queues s.inner cop then
             div := div ++ [s!"line{idx}:impl-wrote-through,model-queues:{c.line}"]
-          let want := (P.scopes c.op).map scopeTok
+          let want := (P.scopes cop).map scopeTok
           if want != c.waits then
             div := div ++ [s!"line{idx}:wait-scopes:impl={c.waits},model={want}"]
-          if (P.scopes c.op).any (fun sc => needFor I sc s.queue > 0) then
+          if (P.scopes cop).any (fun sc => needFor I sc s.queue > 0) then
             div := div ++ [s!"line{idx}:impl-reached-the-inner-storage-with-entries-of-its-scope-still-queued"]
-          let r := I.step s.inner c.op
+          -- a `bad` operation is rejected by the inner storage without a trace (I.step leaves the state)
+          let r := I.step s.inner cop
           s := { s with inner := r.1 }
           cur := some { c with thru := some r.2 }
           nThru := nThru + 1
@@ -129,7 +142,7 @@ def judgeCase (_k : Nat) (lines : List String) : Verdict := Id.run do
         if dumping then
           -- a direct read of the drained inner storage
           nDump := nDump + 1
-          let r := I.step s.inner c.op
+          let r := I.step s.inner (ok c.op)
           s := { s with inner := r.1 }
           let (ctx', ms) := compareOut ctx r.2 l
           ctx := ctx'
@@ -142,9 +155,27 @@ def judgeCase (_k : Nat) (lines : List String) : Verdict := Id.run do
             vio := vio ++ [("C21.drained-state-differs",
               s!"line{idx}:{String.intercalate " " ((tokens c.line).take 4)}:" ++ String.intercalate ";" (jms.take 3))]
         else
-          -- sequential reference first (acceptance order)
+          let isErrRes := l.startsWith "res err"
+          let rolledBack := (lines.getD (idx + 1) "").startsWith "rolledback"
+          if c.bad then
+            -- the outbox layer (queue path) or the inner storage (write-through path) must reject it
+            nRejected := nRejected + 1
+            if !isErrRes then
+              div := div ++ [s!"line{idx}:impl-accepted-a-put-the-model-rejects:{l}"]
+              -- the implementation accepted it: it is part of the accepted history
+              let jr := S3.step Quirks.code seq c.op
+              seq := jr.1
+              if c.queued > 0 && c.thru.isNone then s := { s with queue := s.queue ++ [ok c.op] }
+              else if c.thru.isSome then s := { s with inner := (I.step s.inner (ok c.op)).1 }
+            else if c.queued > 0 && !rolledBack then
+              -- JUDGE: answered with an error, yet its outbox entry stayed: it will be replayed
+              vio := vio ++ [("C21.rejected-op-left-outbox-entry",
+                s!"line{idx}:{String.intercalate " " ((tokens c.line).take 4)}:answered-{(tokens l).getD 2 "err"}-but-{c.queued}-outbox-entry-stays-queued")]
+              s := { s with queue := s.queue ++ [ok c.op] }   -- follow what happened, so that its replay ties
+          else
+          -- sequential reference first (acceptance order): accepted = not answered by a rejection
           let jr := S3.step Quirks.code seq c.op
-          seq := jr.1
+          if !(c.queued > 0 && c.thru.isNone && isErrRes) then seq := jr.1
           match c.thru with
           | some mout =>
             let (ctx', ms) := compareOut ctx mout l
@@ -160,12 +191,19 @@ def judgeCase (_k : Nat) (lines : List String) : Verdict := Id.run do
             if c.queued > 0 then div := div ++ [s!"line{idx}:operation-both-queued-and-written-through"]
           | none =>
             if c.queued > 0 then
+              if isErrRes then
+                -- the model accepts this operation, the implementation answered with an error
+                div := div ++ [s!"line{idx}:queued-operation-not-acknowledged:{l}"]
+                if !rolledBack then
+                  vio := vio ++ [("C21.rejected-op-left-outbox-entry",
+                    s!"line{idx}:{String.intercalate " " ((tokens c.line).take 4)}:answered-{(tokens l).getD 2 "err"}-but-{c.queued}-outbox-entry-stays-queued")]
+                  s := { s with queue := s.queue ++ [ok c.op] }
+              else
               -- acknowledged at once
-              if !P.queues s.inner c.op then
+              if !P.queues s.inner (ok c.op) then
                 div := div ++ [s!"line{idx}:impl-queued,model-writes-through:{c.line}"]
               if !c.waits.isEmpty then div := div ++ [s!"line{idx}:queued-operation-waited:{c.waits}"]
-              s := { s with queue := s.queue ++ [c.op] }
-              if !(l.startsWith "res ok") then div := div ++ [s!"line{idx}:queued-operation-not-acknowledged:{l}"]
+              s := { s with queue := s.queue ++ [ok c.op] }
               -- bind the acknowledged ETag on both sides
               match c.op with
               | .put _ _ body .. =>
@@ -184,6 +222,7 @@ def judgeCase (_k : Nat) (lines : List String) : Verdict := Id.run do
       if !s.queue.isEmpty then div := div ++ [s!"line{idx}:impl-drained,model-table-has-{s.queue.length}-entries"]
       s := { inner := drain I s, queue := [] }
       dumping := true
+    | ["rolledback", _] => pure ()
     | ["jam"] => jammed := true
     | "unexpected" :: rest => div := div ++ [s!"line{idx}:harness-protocol:{String.intercalate " " rest}"]
     | _ => div := div ++ [s!"line{idx}:unparsable:{l}"]
@@ -196,7 +235,8 @@ def judgeCase (_k : Nat) (lines : List String) : Verdict := Id.run do
     stats := stats ++ [("ops", nOps), ("queued_entries", nQueued), ("written_through", nThru), ("reads_judged", nReads),
               ("waits_that_found_entries", nWaitHit), ("waits_polling", nAfter), ("replays", nFlush),
               ("drained_state_reads", nDump), ("jammed_cases", if jammed then 1 else 0),
-              ("acks_of_sequentially_failing_ops", nSeqErrAck)],
+              ("acks_of_sequentially_failing_ops", nSeqErrAck), ("puts_with_client_checksum", nChecked),
+              ("puts_that_must_be_rejected", nRejected)],
     samples := [String.intercalate ";" ((lines.filter fun l => l.startsWith "op " || l.startsWith "flush ").take 12 |>.map fun l => String.intercalate " " ((tokens l).take 5))]
   }
 
